@@ -195,8 +195,8 @@ pub fn verify_rs(pk: &Pt<Fp>, e: &BigUint, r: &BigUint, s: &BigUint) -> bool {
 
 /// Verification of a byte-string signature: exactly 64 bytes.
 pub fn verify(pk: &Pt<Fp>, id: &[u8], msg: &[u8], sig: &[u8]) -> bool {
-    if sig.len() != 64 || pk.is_none() {
-        return false;
+    if sig.len() != 64 || pk.is_none() || !params().curve.on_curve(pk) {
+        return false; // a public key is a finite point of the curve (GB/T 32918.1 6.2.1)
     }
     verify_rs(pk, &digest(id, pk, msg), &from_be(&sig[..32]), &from_be(&sig[32..]))
 }
